@@ -45,6 +45,20 @@ def make_solvers(subs, cfg=("bc", "first", "min", None)):
     return [S.make_solver(S.build(s), s, cfg) for s in subs]
 
 
+def permuted_specs():
+    """Layouts where variable i does not use shared domain i, with different bounds per domain (what Problem.split and the
+    views are most easily confused by)."""
+    out = []
+    leq = [("affine_leq", [0, 2], (1, -1, 1))]
+    geq = [("affine_geq", [0, 1], (1, 3, 16))]
+    out.append(U.spec([(0, 3), (-1, 0), (2, 4)], [(1, 0), (2, 10), (0, 0)], leq, "MP:permuted"))
+    out.append(U.spec([(2, 4), (0, 3), (-1, 0)], [(2, 0), (0, -4), (1, 3)], [], "MP:rotated"))
+    out.append(U.spec([(0, 3), (10, 14)], [(1, 0), (0, 0), (0, 5)], geq, "MP:swapped+view"))
+    out.append(U.spec([(0, 2), (3, 5)], [(1, 0), (0, 0)], [("alldifferent", [0, 1], ())], "MP:swapped"))
+    out.append(U.spec([(0, 2), (0, 3)], [(0, 0), (0, 1), (1, 0)], [("affine_eq", [0, 1, 2], (1, 1, -1, 0))], "MP:shared-then-own"))
+    return out
+
+
 def mp_specs(tier):
     """Small problems with few solutions (all merges are explored) from every family."""
     out = []
@@ -55,4 +69,5 @@ def mp_specs(tier):
     f12 = [s for s in U.universe("quick", ("F1", "F2")) if s["tag"].endswith(":own") or s["tag"].startswith("F2")]
     step = 97 if tier == "quick" else 23
     out += f12[::step]
+    out += permuted_specs()
     return out
